@@ -72,5 +72,11 @@ void harness(void) {
 	if (result != NULL && res == KSI_OK && result->resultCode == KSI_VER_RES_FAIL && !g_c04_rl.rl.unequal && g_c04_rl.b_calls == g_c04_rl_len_b) REACH("verdict FAIL: signature chain has more right links");
 	if (result != NULL && res != KSI_OK && c04_rl_setup_ok(info)) REACH("fetch error reported");
 	if (result != NULL && res == KSI_INVALID_ARGUMENT) REACH("invalid argument reported");
+	/* (audit builderY, dfcc __invalid_ptr sharing) outcomes of the replaced getNextLink at a LATER loop iteration than the first: NULL after non-NULL, failure after success */
+	if (result != NULL && res == KSI_OK && result->resultCode == KSI_VER_RES_OK && g_c04_rl.rl.compared >= 1) REACH("verdict OK after one or more pairs (both lists exhausted at a later iteration)");
+	if (result != NULL && res == KSI_OK && result->resultCode == KSI_VER_RES_FAIL && !g_c04_rl.rl.unequal && g_c04_rl.a_calls == g_c04_rl_len_a && g_c04_rl.rl.compared >= 1) REACH("verdict FAIL: extender chain has more right links, after one or more pairs");
+	if (result != NULL && res == KSI_OK && result->resultCode == KSI_VER_RES_FAIL && !g_c04_rl.rl.unequal && g_c04_rl.b_calls == g_c04_rl_len_b && g_c04_rl.rl.compared >= 1) REACH("verdict FAIL: signature chain has more right links, after one or more pairs");
+	if (result != NULL && res != KSI_OK && g_c04_rl.a_err && g_c04_rl.rl.compared >= 1) REACH("fetch error in the signature chain after one or more pairs");
+	if (result != NULL && res != KSI_OK && g_c04_rl.b_err && g_c04_rl.rl.compared >= 1) REACH("fetch error in the extender chain after one or more pairs");
 }
 #endif
